@@ -129,6 +129,7 @@ def run(ctx):
 def jws_gate(ctx):
     from joserfc import jws, rfc7797
     rng = ctx.rng
+    _batch = []
     n_alg = 5 if ctx.tier == "quick" else 14
     for alg in rng.sample(J.ALL_ALGS, n_alg) + ["HS256"]:
         kn = J.ALG_KEYS[alg][0]
@@ -152,7 +153,8 @@ def jws_gate(ctx):
                         if not want and impl[1] != "UnsupportedAlgorithmError":
                             return f"refusal of {alg} under allow={allow} raised {impl[1]} instead of UnsupportedAlgorithmError"
                         return None
-                    J.run_verify_cases(ctx, "gate-verify", [c], check_c01=False, expect=expect, prop="C05")
+                    c.expect = expect
+                    _batch.append(c)
                     # signing
                     key = J.make_key(kn, private=True)
                     kw = reg.impl_kwargs()
@@ -175,6 +177,7 @@ def jws_gate(ctx):
                     if (out == "ok") != want or (not want and out != "UnsupportedAlgorithmError"):
                         ctx.report(f"signing with {alg} under allow={allow} ({via}=): {out}", {"alg": alg, "kind": kind, "allow": allow, "via": via, "out": out},
                                    f"gate-sign:{'refused' if want else 'used-or-wrong-error'}")
+    J.run_verify_cases(ctx, "gate-verify", _batch, check_c01=False, prop="C05")
 
 
 def _jwe_keys():
